@@ -5,11 +5,13 @@ use crate::codegen::SeparatedExprs;
 use super::{WriteOpt, WriteSource};
 
 pub(crate) fn write_ty(ty: &pr::Ty) -> String {
-    ty.write(WriteOpt::new_width(u16::MAX)).unwrap()
+    ty.write(WriteOpt::new_width(u16::MAX))
+        .unwrap_or_else(|| "<type too long to display>".to_string())
 }
 
 pub(crate) fn write_ty_kind(ty: &pr::TyKind) -> String {
-    ty.write(WriteOpt::new_width(u16::MAX)).unwrap()
+    ty.write(WriteOpt::new_width(u16::MAX))
+        .unwrap_or_else(|| "<type too long to display>".to_string())
 }
 
 impl WriteSource for pr::Ty {
